@@ -141,7 +141,7 @@ CHECKS = {
          "each table T (parallel alternations, wedges type 1/2, regenerated from the source) and each of the eight symmetries some basis element avoids g.T, it "
          "depends only on the class, is order/repetition independent and D8-invariant; when it says 'infinitely many' an explicit family with members of "
          "every length >= 2m lies inside the class (parAlt/wedge families avoid the tables for ALL m).",
-         "D8-invariance and class-only dependence of the whole verdict are proved without hypothesis (hasFiniteSimples_act_all / _class_only_all, through C14's Thm 3.13). Agreement of the verdict with the actual simples: verdict False => simple permutations of Av(B) beyond every bound is PROVED for both halves (verdict_false_correct; the pin half through C14 Thm 3.13 and the geometry of proper pin sequences), i.e. finitely many simples => verdict True; the converse (verdict True => finitely many simples, Brignall-Ruskuc-Vatter) is evaluated against brute-force simples up to n=9.", "5/C16"),
+         "D8-invariance and class-only dependence of the whole verdict are proved without hypothesis (hasFiniteSimples_act_all / _class_only_all, through C14's Thm 3.13). Agreement of the verdict with the actual simples is PROVED in both directions without hypothesis (verdict_matches_simples: has_finite_simples B = True iff the simple permutations of Av(B) have bounded length): verdict False => simples beyond every bound (special half by explicit families, pin half through C14 Thm 3.13 and the geometry of proper pin sequences), verdict True => finitely many, through the Brignall-Huczynska-Vatter unavoidable-substructures theorem, itself proved (unavoidable_substructures, about 4500 lines). The brute-force count of simples up to n=9 still runs as a test.", "5/C16"),
 }
 
 PENDING = {}
